@@ -322,6 +322,10 @@ def run(ctx):
                 o.rule = "R03.6"
                 ctx.obs.append(o)
         ctx.need("R03.6", "reset obligations shared with C14", n6, 3)
+    ctx.rule("R03.7", "the environment wrapper itself hands the variable over verbatim (R19.1 re-evaluated): what check() receives is the variable's content")
+    if ctx.prop == "C03" and not getattr(ctx, "_sharing", False):
+        from .common import share
+        share(ctx, "C19", ("R19.1",), "R03.7", "env::get obligations shared with C19", 4)
     ctx.assume("process-environment races (setenv while parse runs) are outside the claim")
     ctx.assume("nothing is decided about the contents of values beyond verbatimness")
 
